@@ -238,6 +238,18 @@ def _run_history(fb, x, z, ops, M, N, buf=None, strided=False):
             fb.get_response(fftlength=2 * M)
             fb.tile_response(2, fftlength=2 * M)
             y = None
+        elif op[0] == 'x':
+            # calls the filterbank refuses in every state (no voltages at all; on a fresh object also a plain list and a chunk
+            # shorter than one window) are not part of the stream
+            bads = [None, 'not voltages']
+            if fb.cache is None:
+                bads += [list(z[:N]), np.asarray(z[:max(1, N // 2)])]
+            for bad in bads:
+                try:
+                    fb.channelize(bad, cache=True)      # (if an earlier refused call left something behind, this one may be accepted:
+                except Exception:                       #  the stream comparison that follows then shows it)
+                    pass
+            y = None
         elif op[0] == 'k':
             # the stream continues on a deep copy of the object (the original is dropped)
             import copy as _copy
@@ -267,7 +279,7 @@ def _expect(ops, M):
             fresh = False
         elif op[0] == 'n':
             exp.append(('z',))
-        elif op[0] in ('e', 'g', 'k', 'p'):
+        elif op[0] in ('e', 'g', 'k', 'p', 'x'):
             exp.append(None)
         else:
             exp.append(None)
@@ -415,6 +427,8 @@ def case_stream(c):
                           'the object replaced by copy.deepcopy(itself) at position %d of composition %s' % (i, comp))
             check_history(base[:i] + [('p',)] + base[i:], 'copy_loses_stream_state',
                           'the object replaced by its pickle round trip at position %d of composition %s' % (i, comp))
+            check_history(base[:i] + [('x',)] + base[i:], 'refused_call_disturbs_stream',
+                          'refused calls (None, a string; on a fresh object also a list and half a window of samples) inserted at position %d of composition %s' % (i, comp))
             check_history(base[:i] + [('r',)] + base[i:], 'reset_stream',
                           '_reset_cache() inserted at position %d of composition %s' % (i, comp))
     res['state_keys'] = sorted(skeys)
